@@ -283,19 +283,22 @@ pub fn check() -> i32 {
     let threads = crate::report::threads();
     let mut scen = Vec::new();
     let mut outcomes = 0usize;
-    for (p, d) in params(thorough) {
-        let mut cfg = xplore::Cfg::new(d);
-        cfg.max_failures = 50;
-        let o = xplore::explore_parallel(&cfg, threads, scenario(p.clone()));
-        rep.evaluations += o.stats.executions;
-        rep.distinct_nontrivial += o.stats.sigs.len() as u64;
-        outcomes = outcomes.max(o.stats.outcomes.len());
+    let _ = threads;
+    for (idx, (p, d)) in params(thorough).into_iter().enumerate() {
+        let Some(o) = crate::report::explore_isolated(
+            &mut rep, "c04", idx, "c04", thorough,
+        ) else {
+            continue;
+        };
+        rep.evaluations += o.executions;
+        rep.distinct_nontrivial += o.sigs;
+        outcomes = outcomes.max(o.outcomes);
         scen.push(json!({"params": p.to_json(), "bound": d,
-            "schedules": o.stats.executions, "steps": o.stats.steps,
-            "max_depth": o.stats.max_depth,
-            "distinct_outcomes": o.stats.outcomes.len(),
+            "schedules": o.executions, "steps": o.steps,
+            "max_depth": o.max_depth,
+            "distinct_outcomes": o.outcomes,
             "failures": o.failures.len()}));
-        if let Some(c) = &o.stats.cap_hit {
+        if let Some(c) = &o.cap_hit {
             rep.cap(c.clone());
         }
         if let Some(m) = o.machinery_error {
@@ -312,11 +315,20 @@ pub fn check() -> i32 {
             });
         }
         rep.sample(json!({"scenario": p.to_json(), "bound": d,
-                          "schedules": o.stats.executions}));
+                          "schedules": o.executions}));
     }
     rep.extra.insert("scenarios".into(), json!(scen));
     rep.extra.insert("max_distinct_outcomes".into(), json!(outcomes));
     rep.finish()
+}
+
+pub fn child(idx: usize) {
+    let thorough = crate::report::tier() == "thorough";
+    let (p, d) = params(thorough)[idx].clone();
+    let mut cfg = xplore::Cfg::new(d);
+    cfg.max_failures = 50;
+    let o = xplore::explore_parallel(&cfg, crate::report::threads(), scenario(p));
+    crate::report::emit_child_result(&o.to_json());
 }
 
 pub fn replay(v: &Value) -> i32 {
